@@ -134,6 +134,11 @@ def hidden_execution(o):
     """C03 oracle: list of (event, vm_count, decompile_count) the decompile lacks."""
     vi, vc = vm_events(o.ref)
     si, sc = src_events(o.ex)
+    # imports are compared as sets ("is present"): importing a name is idempotent and a decompile
+    # may legitimately show one import statement for a global the VM resolves twice; "at least as
+    # many times" is stated for invocations only (a dropped import that matters changes a callee,
+    # which the call comparison sees)
+    vi = Counter(dict.fromkeys(vi, 1))
     return missing(vi, si) + missing(vc, sc)
 
 
